@@ -401,6 +401,16 @@ def check_c12(tier, seed):
             chunk = []
     chk.sample({k: results[-1][-1][k] for k in ('key', 'out', 'before', 'after', 'step')})
     validate(chk, traces, 'build history')
+    # free-text inputs: copyright / creator texts with surrounding white space, blank-only and multi-line values must be
+    # left exactly as the caller gave them, in successful and in refused builds
+    texts = [('Copyright (c) test', 'ABC\nDEF\nGHI\n'), ('  (c) padded  \n\n', '  by someone  '), ('(c)', '   '), ('(c)\n', ''),
+             ('\n(c)', '\n\nlate\n\n'), ('(c)\t', '\tx\t')]
+    jobs = [{'doc': doc, 'desc': dict(named_cfg(name, doc), copyright=cpy, creator=crt), 'order': None}
+            for doc in ('A', 'B') for name in ('sts', 'mc', 'named', 'bad-build', 'prefixed') for cpy, crt in texts]
+    tevents = run_children([({'seed': 0, 'pid': 'c12-texts'}, jobs)])
+    for evt in tevents:
+        chk.count(('texts', evt['key']))
+    validate(chk, [{'id': 'texts', 'events': tevents}], 'free-text inputs')
     chk.traces = len(hists)
     chk.exhaustive = True
     chk.assumptions = ['"observably unchanged" = equal deep structural digest of FileContents and Configuration (every '
